@@ -771,10 +771,11 @@ def shrink(spec: dict, passes: list[str], seed: int, key_of) -> tuple[dict, list
             j = len(lists[li]) - 1
             while j >= 0:
                 c2 = copy.deepcopy(cur)
-                l2 = list(node_lists(c2))[li]
-                del l2[j]
-                if fails(c2, ps):
-                    cur, changed = c2, True
+                ls2 = list(node_lists(c2))
+                if li < len(ls2) and j < len(ls2[li]):
+                    del ls2[li][j]
+                    if fails(c2, ps):
+                        cur, changed = c2, True
                 j -= 1
             li += 1
         for i in range(len(cur.get("functions", [])) - 1, -1, -1):
@@ -980,9 +981,11 @@ def run(ck) -> None:
     failures += f2
     mism += m2
     for st, (spec, passes, seed) in mism[:5]:
-        ck.broken(f"correspondence:{st.pass_name}",
-                  json.dumps({"pass": st.pass_name, "kind": st.kind, "spec": spec, "passes": passes, "model_expr": st.expr,
-                              "before": st.before[:3000], "after": st.after[:3000]}))
+        path = ck.write_replay({"kind": "correspondence-mismatch", "pass": st.pass_name, "step_kind": st.kind, "spec": spec,
+                                "passes": passes, "input_seed": seed, "model_expr": st.expr,
+                                "explanation": "the Gallina model of this pass and the implementation disagree on this input"},
+                               tag=f"mismatch-{st.pass_name}-{common.digest([spec, passes])}")
+        ck.broken(f"correspondence:{st.pass_name}", f"model pass output != implementation on case {path} (passes {passes})")
     replay_known(ck)
     report_failures(ck, failures, reported)
     # self-check of the generator: every pass ran, rewriting passes rewrote something
